@@ -329,11 +329,18 @@ def run(ctx):
     applied = [p for p in paths if p.returns and N.mk_cmp("is not", fo, N.NONE) in p.guards()]
     ok = len(applied) == 1 and applied[0].retval == ("call", ff, (("eval", fo, ("param", "operand")),), ())
     ctx.ob("C11.R2", fi, ok, "FuncPath.__call__ applies the function to the evaluated operand", key="FuncPath call")
+    binds = [p for p in paths if p.returns and N.mk_cmp("is", fo, N.NONE) in p.guards()]
+    opnd = ("param", "operand")
+    want = N.mk_ite(("call", ("free", "callable"), (opnd,), ()), ("new", "FuncPath", 0, (ff, opnd), ()), opnd)
+    got = N.canon_lids(binds[0].retval) if len(binds) == 1 and binds[0].retval else None
+    if got and got[0] == "ite" and got[2][0] == "new":
+        got = ("ite", got[1], ("new", got[2][1], 0, got[2][3], got[2][4]), got[3])
+    ctx.ob("C11.R2", fi, got == want, "an unbound helper binds to every callable operand (any expression, not only a bare path): len_(this.a + this.b) stays a helper application", key="FuncPath bind")
     fi, paths = own_method_paths(ctx, "Path2", "__call__")
     root = [p for p in paths if p.returns and N.mk_cmp("is", N.selfattr("__parent"), N.NONE) in p.guards()]
     ok = len(root) == 1 and root[0].retval == ("sub", ("param", "*args"), N.const(1))
     ctx.ob("C11.R2", fi, ok, "Path2 root evaluates to the second argument (the list)", key="Path2 root")
-    ctx.floor("C11.R2", 6)
+    ctx.floor("C11.R2", 7)
 
     # ---------------------------------------------------------------- R3
     used = {v[0] for v in BINARY_DUNDERS.values()} | {v[0] for v in UNARY_DUNDERS.values()} | {v[0] for v in DUNDER_DEVIATIONS.values()}
